@@ -362,6 +362,16 @@ func (p *vpPair) destroy() {
 // bufferList.push is instrumented with the entry rule the payload is overwritten at that moment, so that any later use of
 // the bytes by the previous holder (a message assembled from slices that were recycled first, a zero-copy view handed out
 // and not pinned, ...) shows up deterministically instead of needing a concurrent allocation in the window.
+// vsEntryHook is called at the start of functions instrumented with the rewriter's "entry" rule (observation only, no
+// scheduling point).
+var vsEntryHook func(fn string, arg interface{})
+
+func vsEntry(fn string, arg interface{}) {
+	if h := vsEntryHook; h != nil {
+		h(fn, arg)
+	}
+}
+
 const vpRecycledByte = 0xDD
 
 var vpRecycleScribbles uint64
